@@ -287,7 +287,10 @@ theorem fileHeader_some {buf : Bytes} {i : FileInfo} (hf : fileHeader buf = .ok 
   rw [if_neg h24] at hf
   by_cases h3 : rd buf 20 3 = 0xFFFFFF
   · by_cases h32 : buf.length < 32
-    · simp [h3, h32] at hf
+    · simp only [h3, h32, if_true] at hf
+      by_cases he : (buf.take 24).all (· == 0xFF) = true
+      · simp [he] at hf
+      · simp [he] at hf
     · by_cases hff : rd buf 24 8 = 0xFFFFFFFFFFFFFFFF
       · simp [h3, h32, hff] at hf
       · simp only [h3, h32, hff, if_true, if_false] at hf
@@ -305,17 +308,29 @@ theorem fileHeader_some {buf : Bytes} {i : FileInfo} (hf : fileHeader buf = .ok 
       rename_i hle
       simp [h3]; omega
 
-theorem fileHeader_none {buf : Bytes} (hf : fileHeader buf = .ok none) :
-    rd buf 20 3 = 0xFFFFFF ∧ rd buf 24 8 = 0xFFFFFFFFFFFFFFFF := by
+/-- what the reader takes for free space: `Size = FFFFFF` and either an all-ones extended size or (repaired
+    reader, fixes/C02-erased-tail-24) an erased 24-byte header with fewer than 8 bytes behind it -/
+def FreeSpaceLike (buf : Bytes) : Prop :=
+  rd buf 20 3 = 0xFFFFFF ∧
+    (rd buf 24 8 = 0xFFFFFFFFFFFFFFFF ∨ (buf.length < 32 ∧ (buf.take 24).all (· == 0xFF) = true))
+
+/-- the reader takes what it finds at offset `o` of `x` for free space -/
+def FreeSpaceAt (x : Bytes) (o : Nat) : Prop := FreeSpaceLike (x.drop o)
+
+theorem fileHeader_none {buf : Bytes} (hf : fileHeader buf = .ok none) : FreeSpaceLike buf := by
   unfold fileHeader at hf
+  unfold FreeSpaceLike
   by_cases h24 : buf.length < 24
   · simp [h24] at hf
   rw [if_neg h24] at hf
   by_cases h3 : rd buf 20 3 = 0xFFFFFF
   · by_cases h32 : buf.length < 32
-    · simp [h3, h32] at hf
+    · by_cases he : (buf.take 24).all (· == 0xFF) = true
+      · exact ⟨h3, Or.inr ⟨h32, he⟩⟩
+      · simp only [h3, h32, if_true, he] at hf
+        simp at hf
     · by_cases hff : rd buf 24 8 = 0xFFFFFFFFFFFFFFFF
-      · exact ⟨h3, hff⟩
+      · exact ⟨h3, Or.inl hff⟩
       · simp only [h3, h32, hff, if_true, if_false] at hf
         split at hf <;> simp at hf
   · simp only [h3, if_false] at hf
